@@ -37,6 +37,11 @@ var bm = inst.m;
 var bn = [1].push;
 var mapit = [1, 2].iter().map(lam);
 var big = "ab".replace("b", "bcdefghijklmnopqrstuvwxyz").replace("c", "cccccccccccccccc");
+var tupvec = (1, "two", [3]);
+var tupnest = ((1, (2, [3])), 4);
+var tupmap = ({1: 2}, 1);
+var sharedmap = {"a": 1, (1, 2): 3};
+var sharedvec = [1, (2,), "x"];
 import "m0" as modv;
 "#;
 
@@ -49,7 +54,7 @@ const POOL: &[&str] = &[
     "selfvec", "selfmap", "(0..0)", "(3..0)", "(0..3)", "(-9223372036854775808..9223372036854775807)", "lam", "lam0", "lam2",
     "print", "type", "bm", "bn", "U", "Num", "String", "Fiber", "Vec", "Object", "Type", "Error", "StopIter", "It", "inst",
     "It.new()", "MyErr.new()", "fnew", "fone", "fsusp", "fdone", "itfresh", "itdone", "mapit", "modv", "stop", "err",
-    "\"a\".iter()", "(1, 2).iter()", "(0..2).iter()", "U.s", "String.from", "Fiber.yield", "[1].len", "type(U)", "type(type(U))",
+    "tupvec", "tupnest", "tupmap", "sharedmap", "sharedvec", "\"a\".iter()", "(1, 2).iter()", "(0..2).iter()", "U.s", "String.from", "Fiber.yield", "[1].len", "type(U)", "type(type(U))",
 ];
 
 const NAMES: &[&str] = &[
@@ -100,10 +105,20 @@ fn adversarial(bytes: &[u8], triggers: bool) -> (String, usize) {
             11 => format!("for x{} in {} {{ print(x{}); break; }}", i, v(&mut rd), i),
             12 => format!("throw {};", v(&mut rd)),
             13 => format!("print(\"<${{{}}}|${{{}}}>\");", v(&mut rd), v(&mut rd)),
-            14 => match rd.below(4) {
+            14 => match rd.below(5) {
                 0 => format!("print({{{}: 1}});", v(&mut rd)),
                 1 => format!("print({{}}.insert({}, {}));", v(&mut rd), v(&mut rd)),
                 2 => format!("print({{1: 2}}.get({}));", v(&mut rd)),
+                3 => {
+                    // a shared map: keys that failed once are tried again later
+                    let k = v(&mut rd);
+                    match rd.below(4) {
+                        0 => format!("print(sharedmap.insert({}, {}));", k, i),
+                        1 => format!("print(sharedmap.has_key({}));", k),
+                        2 => format!("print(sharedmap.remove({}));", k),
+                        _ => format!("print(sharedmap.get({})); print(sharedmap.len());", k),
+                    }
+                }
                 _ => format!("var vv{} = [0]; vv{}[{}] = {}; print(vv{});", i, i, v(&mut rd), v(&mut rd), i),
             },
             _ => {
@@ -121,6 +136,12 @@ fn adversarial(bytes: &[u8], triggers: bool) -> (String, usize) {
         };
         s.push_str(&format!("try {{ {} print(\"ok {}\"); }} catch e{} {{ print(type(e{})); }}\n", op, i, i, i));
         ops += 1;
+        if !op.starts_with("#[") && !op.starts_with("var ") && !op.starts_with("for ") && rd.below(6) == 0 {
+            // the same operation again: a failure must not leave its operands in a state in which
+            // the second attempt behaves differently in kind (panic instead of error)
+            s.push_str(&format!("try {{ {} print(\"again {}\"); }} catch r{} {{ print(type(r{})); }}\n", op, i, i, i));
+            ops += 1;
+        }
     }
     s.push_str("print(1 + 1);\nprint(\"sentinel\");\n");
     (s, ops)
@@ -233,6 +254,20 @@ impl Property for C02 {
 
     fn run(&self, ctx: &mut CaseCtx) -> Verdict {
         let family = ctx.family.to_string();
+        if family == "fuzz_exec" {
+            // replay of an artifact of the libFuzzer target `exec` (fuzz/fuzz_targets/exec.rs): the same
+            // decoder and oracle, in this build (without AddressSanitizer)
+            return match crate::fuzz::exec_case(ctx.bytes) {
+                Ok(what) => {
+                    ctx.label(what);
+                    Verdict::Pass { nontrivial: what == "agree", hash: fnv64(ctx.bytes) }
+                }
+                Err(e) => Verdict::Fail {
+                    sig: format!("fuzz-exec:{}", e.split(':').next().unwrap_or("oracle")),
+                    detail: e,
+                },
+            };
+        }
         let triggers = family.ends_with("_triggers") || family.starts_with("pinned:");
         let (src, ops) = match self.source(&family, ctx.bytes) {
             Some(x) => x,
@@ -268,6 +303,12 @@ impl Property for C02 {
             return Verdict::Fail {
                 sig: "active-fiber-pointer-mismatch".into(),
                 detail: format!("the raw active-fiber pointer differed from the rooted fiber at {} instructions\n{}", o.fiber_mismatches, shown),
+            };
+        }
+        if o.dangling_upvalues > 0 {
+            return Verdict::Fail {
+                sig: format!("dangling-upvalue{}", suffix),
+                detail: format!("at {} instruction boundaries an open upvalue pointed at or above the top of the value stack\n{}", o.dangling_upvalues, shown),
             };
         }
         let errors = o.out.iter().filter(|l| l.starts_with("<class ")).count();
